@@ -19,13 +19,8 @@ for which, roots, stub in (('url', ['url_parse_ipv6'], []), ('url_aggregator', [
                     globals=[('omitted', 'const unsigned int'), ('url_default', '@default'), ('url_aggregator_default', '@default')],
                     solver='kissat', timeout=3000, object_bits=10, tier='thorough', bound='host text <= 10 bytes',
                     note='%s::parse_ipv6 == the Standard\'s IPv6 parser + serializer (the contract shared by both URL types)' % which))
-    OBLS.append(Obl('C10.parse_ipv6.serialized_identity.%s' % which, ['C10', 'C04', 'C05', 'C02'], 'P#', 'c10/ipv6_twin.c', roots=roots,
-                    stub=stub, specs={'agg_update_base_hostname': 'skel/agg_update_base_hostname.recordk.spec'},
-                    unwind=44, defines=['STR_CAP=42', only, 'IPV6_FROM_ADDRESS=1'], includes=INC,
-                    globals=[('omitted', 'const unsigned int'), ('url_default', '@default'), ('url_aggregator_default', '@default')],
-                    solver='kissat', timeout=6000, object_bits=10, tier='thorough',
-                    note='all 2^128 addresses: %s::parse_ipv6 applied to the Standard\'s serialization succeeds and stores the serialization of the same address '
-                         '(with C10.serializers.ipv6.exact: parsing a serialised address is the identity)' % which))
+    # (C10.parse_ipv6.serialized_identity.* -- parse o serialize = id over all 2^128 addresses through the real parser -- did not finish within
+    #  25 minutes / ran out of memory with the full harness and is not registered; IPV6_FROM_ADDRESS in harness/c10/ipv6_twin.c keeps the set-up)
 
 # (the fully unwound safety obligation C02.parse_ipv6.safe.* -- 40 min, and a timeout on changed code -- was replaced by the cut-loop one below)
 for which, root, stub in (('url', 'url_parse_ipv6', ['serializers_ipv6']), ('url_aggregator', 'agg_parse_ipv6', ['agg_update_base_hostname', 'serializers_ipv6'])):
